@@ -12,7 +12,9 @@ Record cvec := mkv { buf : list Z; len : nat; cap : nat; acap : nat }.
 Inductive vop :=
 | VPush (x : Z) | VPop | VInsert (i : nat) (x : Z) | VRemove (i : nat) | VReserve (n : nat)
 | VClone | VWrite (i : nat) (x : Z) | VFromVec (spare : nat) (xs : list Z) | VRead
-| VCloneP.    (* clone of a vector of elements whose Clone PANICS for poisoned values (element type PC of the harness) *)
+| VCloneP     (* clone of a vector of elements whose Clone PANICS for poisoned values (element type PC of the harness) *)
+| VCloneFrom (dst : list Z).   (* Clone::clone_from onto a destination vector that holds [dst]: the destination becomes the copy (its own elements are
+                                  destroyed), then takes the vector's place as in VClone *)
 
 (* output of one op: (result row, values whose destructor ran, in order) *)
 Definition vout : Type := (list Z * list Z)%type.
@@ -165,6 +167,12 @@ Definition step (v : cvec) (o : vop) : outcome (cvec * vout) :=
                | _ => UB end
       | None => UB
       end
+  | VCloneFrom dst => (* d.clone_from(&v) is `*d = v.clone()`: the copy is made, the destination's old contents go away; then drop(replace(v, d)) *)
+      match clone_vec v with
+      | Ok c => match drop_vec v with
+                | Ok ds => Ok (c, ([5%Z], dst ++ ds))
+                | _ => UB end
+      | _ => UB end
   | VWrite i x => match write v i x with
                   | Ok (v', old) => Ok (v', ([6;0]%Z, [old]))
                   | Panic (v', _) => Panic (v', ([6;9]%Z, [x]))
@@ -211,6 +219,7 @@ Definition spec_step (l : list Z) (o : vop) : list Z * vout * bool :=
   | VReserve _ => (l, ([4%Z], []), false)
   | VClone => (l, ([5%Z], l), false)
   | VCloneP => if existsb poison l then (l, ([5;9]%Z, cloned_before l), true) else (l, ([5%Z], l), false)
+  | VCloneFrom dst => (l, ([5%Z], dst ++ l), false)
   | VWrite i x => match nth_error l i with
                   | Some old => (firstn i l ++ x :: skipn (S i) l, ([6;0]%Z, [old]), false)
                   | None => (l, ([6;9]%Z, [x]), true)
@@ -234,6 +243,7 @@ Definition decode_vop (row : list Z) : option vop :=
   | [3; i]%Z => Some (VRemove (zn i))
   | [4; n]%Z => Some (VReserve (zn n))
   | [5]%Z => Some VClone
+  | (5 :: 1 :: dst)%Z => Some (VCloneFrom dst)
   | [6; i; x]%Z => Some (VWrite (zn i) x)
   | (7 :: spare :: xs)%Z => Some (VFromVec (zn spare) xs)
   | [8]%Z => Some VRead
